@@ -294,6 +294,11 @@ void vp_begin_input(void) {
 int lltd_port_send_frame(void *ctx, const void *frame, size_t len) {
     vp_iface *ifc = (vp_iface *)ctx;
     int idx = ifc ? ifc->idx : -1;
+    if (ifc && ifc->txdown) {
+        vp_in.refused++;
+        vp_logf("t %d %zu\n", idx, len);
+        return -1;
+    }
     if (vp_fault_send_k > 0) {
         if (vp_fault_send_k == 1) {
             if (vp_fault_send_mode == 0) vp_fault_send_k = 0;
